@@ -24,16 +24,35 @@ type c10Case struct {
 
 var probeSeq uint64
 
-func probeSteps(s int, k uint64, ack int) []drv.SStep {
+const probeLen = 13
+
+// probeSteps: a fresh session negotiates, wins, programs, reads, flushes, and programs an entry ahead of its group
+// (a forward reference that must be acknowledged once the group arrives).  Clients number their operations from 1:
+// the forward reference reuses the id of an operation the departed session left held (fwdID), if there is one.
+func probeSteps(s int, k uint64, ack int, fwdID uint64) []drv.SStep {
 	id := drv.U128{Hi: 1 << 40, Lo: k}
 	idc, idf := id, id
+	if fwdID == 0 {
+		fwdID = 1<<49 + k
+	}
+	op := func(o drv.OpSpec) drv.SStep {
+		e := id
+		o.Elec = &e
+		return drv.SStep{K: "ops", S: s, Ops: []drv.OpSpec{o}}
+	}
 	return []drv.SStep{
 		{K: "connect", S: s},
 		{K: "params", S: s, Red: 1, Pers: 1, Ack: ack},
 		{K: "elect", S: s, ID: &idc},
-		{K: "ops", S: s, Ops: []drv.OpSpec{{ID: 1<<50 + k, NI: 1, Kind: "ADD", T: "nh", Key: 3, Elec: &id}}},
+		op(drv.OpSpec{ID: 1<<50 + k, NI: 1, Kind: "ADD", T: "nh", Key: 3}),
 		{K: "get", Get: &drv.GetSpec{NI: "all", AFT: "ALL"}},
 		{K: "flush", Flush: &drv.FlushSpec{Elec: "id", ID: &idf, NI: "name", Name: 3}},
+		op(drv.OpSpec{ID: fwdID, NI: 1, Kind: "ADD", T: "v4", Key: 4, NHG: 9}), // held
+		op(drv.OpSpec{ID: 1<<51 + 8*k, NI: 1, Kind: "ADD", T: "nh", Key: 9}),
+		op(drv.OpSpec{ID: 1<<51 + 8*k + 1, NI: 1, Kind: "ADD", T: "nhg", Key: 9, NHs: [][2]uint64{{9, 1}}}), // resolves it
+		op(drv.OpSpec{ID: 1<<51 + 8*k + 2, NI: 1, Kind: "DELETE", T: "v4", Key: 4}),
+		op(drv.OpSpec{ID: 1<<51 + 8*k + 3, NI: 1, Kind: "DELETE", T: "nhg", Key: 9}),
+		op(drv.OpSpec{ID: 1<<51 + 8*k + 4, NI: 1, Kind: "DELETE", T: "nh", Key: 9}),
 		{K: "close", S: s},
 	}
 }
@@ -66,9 +85,7 @@ func baseScript(r *drv.Rng) []drv.SStep {
 	mk(drv.OpSpec{NI: 1, Kind: "ADD", T: "mpls", Key: 200, NHG: 4})
 	mk(drv.OpSpec{NI: 1, Kind: "ADD", T: "mpls", Key: 16, NHG: 1})
 	mk(drv.OpSpec{NI: 1, Kind: "ADD", T: "mpls", Key: 1048575, NHG: 3})
-	if r.Chance(1, 2) {
-		mk(drv.OpSpec{NI: 1, Kind: "ADD", T: "v4", Key: 2, NHG: 2}) // held: group 2 never arrives
-	}
+	mk(drv.OpSpec{NI: 1, Kind: "ADD", T: "v4", Key: 2, NHG: 2}) // held: group 2 never arrives
 	if r.Chance(1, 2) {
 		id2 := drv.U128{Lo: id.Lo + 1}
 		st = append(st, drv.SStep{K: "elect", S: 1, ID: &id2})
@@ -81,6 +98,14 @@ func baseScript(r *drv.Rng) []drv.SStep {
 func genC10(r *drv.Rng, base []drv.SStep, cut int, mode string) c10Case {
 	c := c10Case{SCase: drv.SCase{VRFs: []int{2, 3}}}
 	c.Steps = append(c.Steps, base[:cut]...)
+	heldID := uint64(0) // the id of the operation the base session leaves held, if the cut is behind it
+	for _, st := range c.Steps {
+		for _, o := range st.Ops {
+			if o.T == "v4" && o.Key == 2 && o.NHG == 2 {
+				heldID = o.ID
+			}
+		}
+	}
 	// every live session must use the same parameters; when no negotiated session is live, the next one takes the
 	// other acknowledgement mode, so that anything a departed session left behind gets in its way
 	liveAck := map[int]int{}
@@ -129,7 +154,7 @@ func genC10(r *drv.Rng, base []drv.SStep, cut int, mode string) c10Case {
 	probe := func() {
 		probeSeq++
 		c.Probes = append(c.Probes, len(c.Steps))
-		c.Steps = append(c.Steps, probeSteps(100+len(c.Probes), probeSeq, nextAck())...)
+		c.Steps = append(c.Steps, probeSteps(100+len(c.Probes), probeSeq, nextAck(), heldID)...)
 	}
 	fault(mode, 1)
 	probe()
@@ -193,7 +218,7 @@ func oracleC10(c c10Case, obs []drv.SObs, snaps []string) string {
 		}
 	}
 	for _, p := range c.Probes {
-		o := obs[p : p+7]
+		o := obs[p : p+probeLen]
 		switch {
 		case len(o[1].Resps) != 1 || o[1].Resps[0].GetSessionParamsResult() == nil:
 			return fmt.Sprintf("probe at step %d: session parameters not accepted: %s", p, drv.OutText(drv.ObsOut{Resps: o[1].Resps, End: o[1].End}))
@@ -205,6 +230,21 @@ func oracleC10(c c10Case, obs []drv.SObs, snaps []string) string {
 			return fmt.Sprintf("probe at step %d: Get failed: %s", p, o[4].GetErr)
 		case o[5].FlushSt != "F_OK":
 			return fmt.Sprintf("probe at step %d: Flush answered %s", p, o[5].FlushSt)
+		default:
+			want := c.Steps[p+6].Ops[0].ID
+			seen := false
+			for _, x := range o[6:9] {
+				for _, r := range x.Resps {
+					for _, res := range r.GetResult() {
+						if res.GetId() == want && res.GetStatus() == spb.AFTResult_RIB_PROGRAMMED {
+							seen = true
+						}
+					}
+				}
+			}
+			if !seen {
+				return fmt.Sprintf("probe at step %d: operation %d, sent ahead of its group, was not acknowledged once the group was programmed", p, want)
+			}
 		}
 	}
 	return ""
